@@ -37,6 +37,7 @@ func discoveryDir(h *harness) string {
 	if err := os.WriteFile(filepath.Join(dir, "c19.json"), []byte(def), 0o644); err != nil {
 		h.r.Fatalf("write definition: %v", err)
 	}
+	writeGridServices(h, dir)
 	return dir
 }
 
